@@ -516,3 +516,19 @@ LEVEL_TEXT += _ADDR7DF
 _ADD_R7S = " Borrowed: R07.1 (every generated look-up is d.get(key, MISSING): absence stays distinguishable from null, so a missing required key raises MissingField)."
 EXPLANATION += _ADD_R7S
 LEVEL_TEXT += _ADD_R7S
+
+
+_run_before_r7s = run
+
+
+def run(repo, rep, tier):  # noqa: F811 -- round-7 remedies / borrowings
+    _run_before_r7s(repo, rep, tier)
+    if getattr(rep, "borrowed", False):
+        return
+    from ..core import round7 as _r7s
+    _r7s.nullability_on_substituted_type(repo, rep, "R05.17")
+
+
+_ADD_R7S = " R05.17: the field-level None guard is decided on get_real_type(name, type) -- the type Registry.get dispatches on, with the owner's type parameters substituted -- at both builder sites."
+EXPLANATION += _ADD_R7S
+LEVEL_TEXT += _ADD_R7S
